@@ -812,28 +812,47 @@ func (e *Env) specCall(sf *SpecFunc, args []tv) (tv, error) {
 	// Heap arguments: a version that agrees with an earlier one on all objects older than the function entry
 	// is replaced by that earlier version when every reference argument is such an old object (frame rule for
 	// heap-dependent spec functions; relies on the closed-heap facts: old objects only reach old objects).
-	allOld := []string{}
-	if e.heapParams == nil && e.g != nil && e.g.oldFrontier != "" {
-		for i, a := range args {
+	// reference arguments: their allocation ids decide how far back in the version chain the heap argument may be taken
+	var argRbs []string
+	if e.heapParams == nil {
+		for i := range args {
 			switch e.sortOfS(info.paramTypes[i]) {
 			case "Ref":
-				allOld = append(allOld, fmt.Sprintf("(< (rb %s) %s)", as[i], e.g.oldFrontier))
+				argRbs = append(argRbs, fmt.Sprintf("(rb %s)", as[i]))
 			case "Slice":
-				allOld = append(allOld, fmt.Sprintf("(< (rb (sarr %s)) %s)", as[i], e.g.oldFrontier))
+				argRbs = append(argRbs, fmt.Sprintf("(rb (sarr %s))", as[i]))
 			}
-			_ = a
 		}
 	}
 	for _, tag := range info.tags {
 		cur := e.memTag(tag)
 		if e.heapParams == nil && !strings.HasPrefix(tag, "G!") {
-			if base := e.sc.oldBase(cur); base != cur {
-				if len(allOld) == 0 {
-					cur = base
-				} else {
-					cur = fmt.Sprintf("(ite (and %s) %s %s)", strings.Join(allOld, " "), base, cur)
+			// walk the chain  cur -> prev -> ... ; a step may be undone when every reference argument is older than all
+			// objects the step wrote (closed heap: such arguments cannot reach the written objects)
+			var build func(name string, depth int) string
+			build = func(name string, depth int) string {
+				stp, ok := e.sc.steps[name]
+				if !ok || depth > 40 {
+					return name
 				}
-				e.g.assumptions["frame rule for heap-dependent spec functions: stores to objects allocated by the function do not change their value on pre-existing arguments"] = true
+				inner := build(stp.prev, depth+1)
+				if len(argRbs) == 0 {
+					return inner
+				}
+				var conds []string
+				for _, a := range argRbs {
+					for _, b := range stp.bounds {
+						conds = append(conds, fmt.Sprintf("(< %s %s)", a, b))
+					}
+				}
+				if len(conds) == 0 {
+					return inner
+				}
+				return fmt.Sprintf("(ite (and %s) %s %s)", strings.Join(conds, " "), inner, name)
+			}
+			if nc := build(cur, 0); nc != cur {
+				cur = nc
+				e.g.assumptions["frame rule for heap-dependent spec functions: a write to an object allocated later than every reference argument does not change the function's value (closed heap)"] = true
 			}
 		}
 		as = append(as, cur)
@@ -1235,6 +1254,10 @@ func (g *Gen) loopEnv(li *loopInfo, st *State, phiVals map[*ssa.Phi]string) *Env
 				if mt, isMap := rng.X.Type().Underlying().(*types.Map); isMap {
 					tag := g.visTag(rng)
 					e.vars["visited"] = tv{t: g.sc.lookup(st, tag), ty: &SType{Kind: "set", K: goT(mt.Key())}}
+					// the map being ranged over (it may be an unnamed temporary such as a call result)
+					if _, shadow := e.vars["ranged"]; !shadow {
+						e.vars["ranged"] = tv{t: g.term(rng.X), ty: goT(rng.X.Type())}
+					}
 				}
 			}
 		}
